@@ -118,7 +118,8 @@ bool FileManager::getCleanLine(std::istream& _ifs, std::string& _string, bool _s
                 return true;
         }
 
-        if(_ifs.eof()) {
+        if(!_ifs.good()) {
+            // end of file, or a stream in a fail state that will not deliver any more lines
             if (verbosity_level_ >= 2) {
                 std::cerr << "End of file reached while searching for input!" << std::endl;
             }
